@@ -31,6 +31,16 @@ def make_case(rng):
     for v in case["variables"]:
         if v["costs"]:
             v["costs"] = [infinity if rng.random() < 0.2 else x for x in v["costs"]]
+    # terms beyond a finite infinity value (stacked penalties such as 2 * infinity, infinity + 1, -infinity): they are
+    # not *equal* to the infinity value, so they are soft terms like any other
+    if infinity != float("inf") and rng.random() < 0.4:
+        near = [2 * infinity, infinity + 1, infinity - 1, -infinity, 3 * infinity + 0.5]
+        for c in case["constraints"]:
+            c["table"] = [rng.choice(near) if rng.random() < 0.15 else x for x in c["table"]]
+        for v in case["variables"]:
+            if v["costs"]:
+                v["costs"] = [rng.choice(near) if rng.random() < 0.15 else x for x in v["costs"]]
+        case["terms_beyond_infinity"] = True
     # external variables: the last variable of some cases becomes external with a fixed value
     case["external"] = {}
     if len(case["variables"]) >= 2 and rng.random() < 0.35:
@@ -100,6 +110,8 @@ def check_case(case, rng, R):
             problems.append(("solution_cost:exception:%s" % type(e).__name__, "solution_cost(%r) raised %s: %s" % (asg, type(e).__name__, e)))
             continue
         R.count("solution_cost_complete_checked")
+        if case.get("terms_beyond_infinity"):
+            R.count("solution_cost_checked_with_terms_beyond_a_finite_infinity")
         if case["external"] and rng.random() < 0.5:
             # an assignment that also carries an (out of date) entry for an external variable - e.g. a snapshot taken
             # before the sensor changed: the cost is computed with the external variable's current value
@@ -138,8 +150,14 @@ def check_case(case, rng, R):
             if n in in_scope:  # variable costs are counted for the variables the constraints depend on
                 vsum = vsum + gen.var_cost(vm[n], full[n])
         try:
-            got_a = assignment_cost(dict(full), rels)
-            got_b = assignment_cost(dict(full), rels, consider_variable_cost=True)
+            # `constraints` is declared as an Iterable: any form, also single-pass ones, must give the defining sum
+            form = rng.choice(["list", "tuple", "values", "generator", "iter", "filter"])
+            shape = {"list": lambda: list(rels), "tuple": lambda: tuple(rels), "values": lambda: dcop.constraints.values(),
+                     "generator": lambda: (r for r in rels), "iter": lambda: iter(rels),
+                     "filter": lambda: filter(lambda r: True, rels)}[form]
+            R.bump("assignment_cost_constraints_given_as", form)
+            got_a = assignment_cost(dict(full), shape())
+            got_b = assignment_cost(dict(full), shape(), consider_variable_cost=True)
             # some values only through kwargs
             part = dict(full)
             moved = {}
